@@ -339,7 +339,7 @@ pub fn run(ctx: &Ctx) -> ! {
             "client ports cannot be pinned through the public API (no TcpSocket shim); 4-tuple reuse is forced by spinning the shared ephemeral cursor with UDP port-0 binds".into(),
             "table sizes come from the read-only hook turmoil_net::verif::host_counts_by_id (cfg turmoil_verif)".into(),
         ],
-        min_distinct: ctx.pick(150, 2000),
+        min_distinct: ctx.pick(1500, 20_000),
         required_counters: vec![
             "connects_started",
             "connect_ok",
@@ -373,7 +373,7 @@ pub fn run(ctx: &Ctx) -> ! {
 
     let mut report = Report::default();
     report.max_samples = 2;
-    let total_budget = ctx.pick(50.0, 600.0);
+    let total_budget = ctx.pick(50.0, 540.0);
 
     // directed
     {
@@ -391,10 +391,10 @@ pub fn run(ctx: &Ctx) -> ! {
     }
     // systematic enumeration, grouped 8 episodes per Net
     {
-        let fam = enum_family();
+        let fam = std::sync::Arc::new(enum_family());
         let group = 8usize;
         let all = fam.len().div_ceil(group) as u64;
-        // quick: a seeded half of the groups; thorough: all, under 3 configs
+        // quick: default config; thorough: three configs
         let cfgs: Vec<Cfg> = if ctx.quick() {
             vec![Cfg::default_cfg()]
         } else {
@@ -406,18 +406,11 @@ pub fn run(ctx: &Ctx) -> ! {
         };
         let n = all * cfgs.len() as u64;
         let c2 = ctx.clone();
-        let quick = ctx.quick();
         let opts = RunOpts { budget_s: total_budget * 0.4, ..RunOpts::default() };
         let rep = vcore::run_parallel(ctx, n, opts, move |i| {
             let cfg = cfgs[(i / all) as usize].clone();
             let g = (i % all) as usize;
             let seed = c2.scenario_seed("enum", i);
-            if quick && (vcore::rng::mix(c2.seed ^ g as u64) % 2 == 1) {
-                let mut o = ScenarioOut::default();
-                o.discarded = Some("enum group not selected in quick tier".into());
-                return o;
-            }
-            let fam = enum_family();
             let eps: Vec<Episode> = fam[g * group..((g + 1) * group).min(fam.len())].to_vec();
             let sc = Scenario { cfg, episodes: eps };
             let o = run_scenario(&sc, seed);
@@ -427,7 +420,7 @@ pub fn run(ctx: &Ctx) -> ! {
     }
     // random
     {
-        let n = ctx.pick(500u64, 200_000);
+        let n = ctx.pick(5000u64, 3_000_000);
         let c2 = ctx.clone();
         let opts = RunOpts { budget_s: total_budget * 0.45, ..RunOpts::default() };
         let rep = vcore::run_parallel(ctx, n, opts, move |i| {
@@ -444,7 +437,7 @@ pub fn run(ctx: &Ctx) -> ! {
     }
     // crowd (backlog)
     {
-        let n = ctx.pick(200u64, 40_000);
+        let n = ctx.pick(2000u64, 400_000);
         let c2 = ctx.clone();
         let opts = RunOpts { budget_s: total_budget * 0.15, ..RunOpts::default() };
         let rep = vcore::run_parallel(ctx, n, opts, move |i| {
@@ -455,7 +448,6 @@ pub fn run(ctx: &Ctx) -> ! {
         report.merge(rep);
     }
     // budget exhaustion only trims coverage
-    report.budget_exhausted = false || report.budget_exhausted;
     let pairs = report.seen.get("state_pairs").map(|s| s.len()).unwrap_or(0);
     report.extra.insert("state_pairs_hit".into(), json!(pairs));
     if pairs < 25 && ctx.replay.is_none() {
